@@ -423,6 +423,22 @@ func ruleT7(c *Ctx) []Ob {
 				}
 			}
 		}
+		// a case body that falls out of the switch: the return shared by the cases
+		for _, cv := range cs {
+			if ci := cases[cv]; ci != nil && ci.ret == nil {
+				cur := b
+				for steps := 0; steps < 4 && ci.ret == nil; steps++ {
+					switch x := cur.Instrs[len(cur.Instrs)-1].(type) {
+					case *ssa.Return:
+						ci.ret = x
+					case *ssa.Jump:
+						cur = cur.Succs[0]
+					default:
+						steps = 4
+					}
+				}
+			}
+		}
 	}
 	keys := map[int64]bool{}
 	for kk, v := range sizes {
@@ -517,7 +533,16 @@ func ruleT7(c *Ctx) []Ob {
 			}
 		}
 		// return count
-		if n, ok := constInt(ci.ret.Results[0]); !ok || n != int64(ksp.wire) {
+		retN, retOK := constInt(ci.ret.Results[0])
+		if !retOK {
+			// the count read from the size table for this very kind
+			if u, ok := stripConv(ci.ret.Results[0]).(*ssa.UnOp); ok && u.Op == token.MUL {
+				if ia, ok := u.X.(*ssa.IndexAddr); ok && strings.HasSuffix(path(ia.X), "typeToSize") && ia.Index == ssa.Value(tparam) {
+					retN, retOK = wv, true
+				}
+			}
+		}
+		if n, ok := retN, retOK; !ok || n != int64(ksp.wire) {
 			ps = append(ps, fmt.Sprintf("returns %v consumed bytes, wire width is %d", ci.ret.Results[0], ksp.wire))
 		}
 		if len(ci.ret.Results) > 1 && !isNilConst(ci.ret.Results[1]) {
